@@ -36,3 +36,13 @@ Inductive wstep :=
 Inductive arm := ArmHandler | ArmSkip | ArmRecurse | ArmChoices | ArmPanic | ArmUnknown.
 Inductive astep := AKeyFromString | ASkipIfPresent | AInsertKey | AAppendDep | AUnknown.
 Inductive keyfield := KSelfName | KSelfEp | KTargetName | KTargetEp | KUnknown.
+
+(* one statement of the per-view loop of GenerateIntegrations *)
+Inductive vstep :=
+| VOwnExcludes             (* excludes := MakeStrSetFromAttr("exclude", endpt.GetAttrs()) *)
+| VOwnPassthrough          (* passthroughs := MakeStrSetFromAttr("passthrough", endpt.GetAttrs()) *)
+| VBuildFreshUnion         (* b := MakeBuilderfromStmt(model, endpt.GetStmt(), shared.Union(excludes), passthroughs) *)
+| VParamsFromThisBuilder   (* &IntsParam{b.FinalApps, b.SeedAppsMap, b.DepsOut, app, endpt} *)
+| VRender                  (* r[outputDir] = GenerateView(args, intsParam, model) *)
+| VSharedTouched           (* any other statement of the loop that mentions the shared exclude set *)
+| VUnknown.
